@@ -382,3 +382,143 @@ def default_value(spec, top=True):
     if k in ("ref", "unionref"):
         return None
     raise ValueError(k)
+
+
+# --------------------------------------------------------------------------
+# paths: navigation shared by object and model
+# --------------------------------------------------------------------------
+# step = ["f", name] | ["i", [i0, i1..]] | ["d"]  (dereference of a ref / union member; implicit on objects)
+
+
+def leaf_paths(spec, value, prefix=None, out=None, through_refs=True):
+    """paths to every scalar / string leaf that exists in `value`"""
+    if out is None:
+        out = []
+    prefix = prefix or []
+    k = spec["k"]
+    if k in ("scalar", "string"):
+        out.append((prefix, spec))
+    elif k == "struct":
+        for fn, ft in spec["fields"]:
+            leaf_paths(ft, value[fn], prefix + [["f", fn]], out, through_refs)
+    elif k == "array":
+        for idx, v in zip(tg.indices(value["shape"]), value["flat"]):
+            leaf_paths(spec["item"], v, prefix + [["i", list(idx)]], out, through_refs)
+    elif k == "ref":
+        if value is not None and through_refs:
+            leaf_paths(spec["to"], value, prefix + [["d"]], out, through_refs)
+    elif k == "unionref":
+        if value is not None and through_refs:
+            leaf_paths(spec["members"][value[0]], value[1], prefix + [["d"]], out, through_refs)
+    return out
+
+
+def compound_paths(spec, value, prefix=None, out=None):
+    """paths to every struct / array / (non-null) reference target, root included"""
+    if out is None:
+        out = []
+    prefix = prefix or []
+    k = spec["k"]
+    if k == "struct":
+        out.append((prefix, spec))
+        for fn, ft in spec["fields"]:
+            compound_paths(ft, value[fn], prefix + [["f", fn]], out)
+    elif k == "array":
+        out.append((prefix, spec))
+        if spec["item"]["k"] not in ("scalar", "string"):
+            for idx, v in zip(tg.indices(value["shape"]), value["flat"]):
+                compound_paths(spec["item"], v, prefix + [["i", list(idx)]], out)
+    elif k == "ref":
+        if value is not None:
+            compound_paths(spec["to"], value, prefix + [["d"]], out)
+    elif k == "unionref":
+        if value is not None:
+            compound_paths(spec["members"][value[0]], value[1], prefix + [["d"]], out)
+    return out
+
+
+def model_get(spec, value, path):
+    for st in path:
+        k = spec["k"]
+        if st[0] == "f":
+            value = value[st[1]]
+            spec = dict((a, b) for a, b in spec["fields"])[st[1]]
+        elif st[0] == "i":
+            value = value["flat"][tg.flat_index(st[1], value["shape"])]
+            spec = spec["item"]
+        else:
+            if k == "ref":
+                spec = spec["to"]
+            else:
+                spec = spec["members"][value[0]]
+                value = value[1]
+    return spec, value
+
+
+def model_set(spec, value, path, new):
+    """in-place update of the model value"""
+    if not path:
+        raise ValueError("cannot replace the root")
+    pspec, parent = model_get(spec, value, path[:-1])
+    st = path[-1]
+    if st[0] == "f":
+        parent[st[1]] = new
+    elif st[0] == "i":
+        parent["flat"][tg.flat_index(st[1], parent["shape"])] = new
+    else:
+        raise ValueError("path must end in a field or index")
+
+
+def _kid(node, st, obj=None):
+    spec = node.spec
+    if st[0] == "f":
+        for (fn, _), kid in zip(spec["fields"], node.kids):
+            if fn == st[1]:
+                return kid
+        raise KeyError(st[1])
+    if st[0] == "i":
+        return node.kids[0]
+    if spec["k"] == "ref":
+        return node.kids[0]
+    nm = type(obj).__name__
+    for m in node.kids:
+        if m.cls.__name__ == nm:
+            return m
+    raise KeyError(nm)
+
+
+def obj_get(obj, node, path):
+    """follow `path` through the public accessors -> (object or python value, node)"""
+    for st in path:
+        if st[0] == "f":
+            obj = getattr(obj, st[1])
+            node = _kid(node, st)
+        elif st[0] == "i":
+            idx = st[1]
+            obj = obj[idx[0]] if len(idx) == 1 else obj[tuple(idx)]
+            node = _kid(node, st)
+        else:
+            if node.spec["k"] == "unionref" and isinstance(obj, node.cls):
+                obj = obj.get()
+            node = _kid(node, st, obj)
+    return obj, node
+
+
+def obj_set(obj, node, path, pyvalue):
+    parent, pnode = obj_get(obj, node, path[:-1])
+    st = path[-1]
+    if st[0] == "f":
+        setattr(parent, st[1], pyvalue)
+    elif st[0] == "i":
+        idx = st[1]
+        if len(idx) == 1:
+            parent[idx[0]] = pyvalue
+        else:
+            parent[tuple(idx)] = pyvalue
+    else:
+        raise ValueError("path must end in a field or index")
+
+
+def view_of(x):
+    """a view rebuilt from nothing but buffer and offset"""
+    return type(x)._from_buffer(x._buffer, x._offset)
